@@ -12,7 +12,7 @@ from hv.base import ShardResult, Violation
 PROP = "C13"
 RULE = ("generated strongly connected street graphs (4-14 nodes on a jittered grid: Hamiltonian cycle + extra one-way and two-way streets, "
         "lengths >= straight line x [1, 1.6], speeds 5-120 km/h, some edges without speed), the shipped Denver graph and the straight-line "
-        "network (at ten places on earth, destinations also in the ring of 1-2 cells around the origin); position pairs built from link starts / ends / interior cells, snapped arbitrary cells and mid-link vehicle positions (the cell "
+        "network (at ten places on earth, destinations also in the ring of 1-2 cells around the origin); position pairs built from link starts / ends / interior cells, snapped arbitrary cells (also tens of kilometres outside the network) and mid-link vehicle positions (the cell "
         "of the (lat, lon)-interpolated point, which may lie off the link's grid line), including the same link in both "
         "orders, opposite directions of one street, adjacent links and identical positions; validity predicate on route(o, d): empty iff o == d; "
         "first link starts at o's cell on o's link, last link ends at d's cell on d's link, consecutive links join end to start, every link id "
@@ -40,7 +40,9 @@ def st_case(draw) -> Dict[str, Any]:
         near = st.tuples(st.just("ring"), st.integers(1, 2), st.integers(0, 11)).map(list)
         pairs = draw(st.lists(st.tuples(cell, st.one_of(cell, near)).map(list), min_size=1, max_size=8))
     else:
-        pos = graphs.st_position()
+        # any location can be snapped (requests and vehicles are placed by coordinates): also ones tens of kilometres outside the network
+        far = st.tuples(st.just("cell"), st.integers(-25, 40), st.integers(-25, 40)).map(lambda t: ["cell", round(graphs.LAT0 + t[1] * 0.013, 6), round(graphs.LON0 + t[2] * 0.017, 6)])
+        pos = st.one_of(graphs.st_position(), graphs.st_position(), graphs.st_position(), far)
         special = st.tuples(st.integers(0, 1000), graphs.st_where, graphs.st_where, st.sampled_from(["same", "reverse", "identical"]))
         pairs = []
         for _ in range(draw(st.integers(1, 10))):
